@@ -78,7 +78,7 @@ Sem(e) ==
 FreshAgrees(e) ==
   IF "fresh" \in DOMAIN e
   THEN /\ "f_panic" \notin DOMAIN e
-       /\ \A k \in {"val", "model", "limbs", "nlimbs", "climbs", "shape"} :
+       /\ \A k \in {"val", "model", "limbs", "nlimbs", "climbs", "nclimbs", "shape"} :
              IF k \in DOMAIN e THEN ("f_" \o k) \in DOMAIN e /\ e["f_" \o k] = e[k] ELSE TRUE
   ELSE TRUE
 
@@ -155,6 +155,7 @@ HashOK(e) ==
           /\ (IF <<e.p, f>> \in DOMAIN hashes THEN hashes[<<e.p, f>>] = e.limbs ELSE TRUE)
           /\ (IF <<e.p, Neg(f)>> \in DOMAIN hashes THEN hashes[<<e.p, Neg(f)>>] = e.nlimbs ELSE TRUE)
           /\ (IF "climbs" \in DOMAIN e THEN e.climbs = e.limbs ELSE TRUE)
+          /\ (IF "nclimbs" \in DOMAIN e THEN e.nclimbs = e.nlimbs ELSE TRUE)                     \* cached hash of the negation
 HashUpd(e) ==
   IF e.p = "32749" THEN hashes
   ELSE LET f == D(e, 1) IN (<<e.p, f>> :> e.limbs) @@ (<<e.p, Neg(f)>> :> e.nlimbs) @@ hashes
